@@ -3,8 +3,6 @@
 package naga
 
 import (
-	"github.com/gogpu/naga/glsl"
-	"github.com/gogpu/naga/internal/zzclike"
 	"github.com/gogpu/naga/internal/zztpl"
 	zz "github.com/gogpu/naga/internal/zzverif"
 )
@@ -13,54 +11,6 @@ import (
 // -> glsl.Compile pipeline runs on a template, the emitted GLSL text is parsed and executed by
 // the reference evaluator (internal/zzclike, GLSL dialect) on SYMBOLIC buffer contents, and
 // the final buffer is compared with the WGSL meaning of the template.
-
-func zzGLSLOptions() glsl.Options {
-	o := glsl.DefaultOptions()
-	switch zz.Choice("options", 3) {
-	case 0:
-		o.LangVersion = glsl.Version430
-	case 1:
-		o.LangVersion = glsl.VersionES310
-	case 2:
-		o.LangVersion = glsl.Version450
-		o.ForceHighPrecision = false
-	}
-	return o
-}
-
-func zzCompileAndRunGLSL(src string, in []uint32, wid [3]uint32, garbage []uint32) ([]uint32, bool) {
-	ast, err := Parse(src)
-	zz.Assert(err == nil, "template does not parse: "+src)
-	if err != nil {
-		return nil, false
-	}
-	mod, err := LowerWithSource(ast, src)
-	zz.Assert(err == nil, "template does not lower: "+src)
-	if err != nil {
-		return nil, false
-	}
-	verrs, err := Validate(mod)
-	zz.Assert(err == nil && len(verrs) == 0, "template rejected by the validator: "+src)
-	text, info, err := glsl.Compile(mod, zzGLSLOptions())
-	zz.Assert(err == nil, "GLSL backend rejected the template: "+src)
-	if err != nil {
-		return nil, false
-	}
-	entry := "main"
-	_ = info
-	prog, perr := zzclike.Parse(text, zzclike.GLSL)
-	zz.Assert(perr == "", "emitted GLSL is outside the reference grammar: "+perr)
-	if perr != "" {
-		return nil, false
-	}
-	prog.WorkgroupID, prog.WorkgroupSize, prog.Garbage = wid, [3]uint32{1, 1, 1}, garbage
-	out, rerr := prog.Run(entry, in)
-	zz.Assert(rerr == "", "emitted GLSL cannot be executed by the reference evaluator: "+rerr)
-	if rerr != "" {
-		return nil, false
-	}
-	return out, true
-}
 
 func zzRunTemplateGLSL(t zzTemplate) {
 	src := zzTemplateSource(t)
